@@ -202,8 +202,13 @@ contract(
 lemma("printable-slice", props=["C12"], vars={"x": "bytes", "a": "int", "b": "int"}, hyps=["matches(rb'[!-~]*', x)"], goal="matches(rb'[!-~]*', x[a:b])",
       notes="a language of the form C* is closed under taking slices", trusted=True)
 contract(
+    "multidecoder.decoders.network.normalize_percent_encoding.normalize_percent", props=["C10"],
+    types={"match": "match:(?i)%([0-9a-f]{2})", "@upper_printable": "yes"}, returns="bytes",
+    ensures={"never-longer": "len(result) <= len(match.group(0))", "printable": "matches(rb'[!-~]*', result)"},
+)
+contract(
     "multidecoder.decoders.network.normalize_percent_encoding", props=["C10", "C12"],
-    types={"uri": "bytes", "@resub_callback": "never-longer: every %XX is replaced by one byte or by its upper-cased spelling; printable: a replacement of printable ASCII is printable ASCII"},
+    types={"uri": "bytes"},
     returns="tuple[bytes, str]",
     ensures={"printable-stays-printable": "implies(matches(rb'[!-~]*', uri), matches(rb'[!-~]*', result[0]))", "never-longer": "len(result[0]) <= len(uri)",
              # labelled exactly when normalisation shortened the text (C10)
